@@ -92,3 +92,25 @@ PROPS["C17"] = {
     "level_text": "Kernel-checked theorems over the Dll model (dll.c statement by statement on a heap of next/prev functions; unbounded lists, elements and operation sequences): remove / splice / make_first / make_last implement erase / insertion on the abstract sequences with frame conditions, traversals enumerate the sequence forwards and backwards, a removed element is a self-linked singleton, emptiness is exact, no NULL dereference under the contract, and by induction over the operation list the concrete heap represents the abstract state after every prefix (C17_sequences). Tied to the code by a differential run of the real dll.c (C and C++ builds): exhaustive sequences to a length bound plus random longer ones.",
     "level_note": "Contract hypotheses: inserted element is a ring disjoint from the list; removed element is in the list; splice arguments in different rings (what nsync's callers guarantee). Tie is the differential run (exhaustive to the stated bound + random), not a translation.",
 }
+
+PROPS["C02"] = {
+    "claim": False,
+    "imports": ["NsyncVerif.Props.C01"], "theorems": [],
+    "layers": ["mux"],
+    "oracles": {"stuck", "steplimit", "try-blocked", "panic", "crash"},
+    "plan": {"quick": [("core", 150, 8), ("muwait", 60, 6), ("cv", 60, 6)], "thorough": [("core", 1500, 16), ("muwait", 600, 12), ("cv", 600, 12), ("mixed", 600, 12)]},
+    "level_text": "", "level_note": "",
+}
+
+PROPS["C15"] = {
+    "imports": ["NsyncVerif.Props.C15", "NsyncVerif.Props.C12"],
+    "theorems": ["NsyncVerif.Props.C15." + t for t in ["C15_futex_args_accepted", "C15_clamp_still_expired", "C15_timespec_faithful",
+                 "C15_null_iff_no_deadline", "C15_classify_expired", "C15_future_not_prompt", "C15_wait_n_short_circuit"]] +
+                ["NsyncVerif.Time." + t for t in ["C15_cmp_zero_classifies", "C15_neg_sec_is_past", "C15_noDeadline_max", "C15_noDeadline_eq_iff"]] +
+                ["NsyncVerif.Futex." + t for t in ["C12_timeout_real", "C12_post_kept_on_timeout", "C12_future_timed_wait_returns"]],
+    "layers": ["deadline"], "engine": "realplat",
+    "realplat": True,
+    "oracles": {"deadline"},
+    "level_text": "Kernel-checked theorems over the Deadline/Time/Futex models: for every deadline value the timespec handed to the kernel satisfies the futex contract (no EINVAL, so the ASSERT cannot fire), a pre-epoch deadline is clamped to an instant that is still expired and the library's re-check then reports ETIMEDOUT, no_deadline (and only it) means no timeout, classification expired/future agrees with integer time, nsync_wait_n short-circuits exactly the deadlines at or before zero; no early timeout and an expired deadline needs no wake-up for the semaphore (C12 theorems). Tied to the code by the real-platform probe: every timed entry point x the property's boundary set of deadlines x {C build, C++ build}, one child process per case on the real futex/kernel; the observed outcome class (prompt timeout / timeout at deadline / event / crash / hang) must equal the model's.",
+    "level_note": "The futex(2) timeout contract is an assumption, re-validated against the running kernel by the probe on every run. The probe uses wall-clock time: generous margins (prompt < 1 s, future deadline = now + 300 ms, hang = 4 s). Entry-point control flow above the semaphore is tied by the probe and by the lockstep layers of C04/C05/C10/C11, not re-proved here.",
+}
